@@ -308,6 +308,41 @@ func checkC13(c *Ctx, r *Report) {
 			viol = "no file write found in " + fnk
 		}
 		r.add("C13.f", "fieldflow", fnk+":truncating-write", "the artifact replaces whatever was at the output path", []string{fnk}, sites, viol)
+		// ... on every successful run (no "already up to date" shortcut), and what is at the
+		// output path is never read: otherwise the bytes that end up there depend on what was there
+		{
+			v2 := ""
+			var s2 []string
+			var writeBlocks = map[*ssa.BasicBlock]bool{}
+			for _, fw := range fws {
+				if fw.Site.Parent() == fi.SSA {
+					writeBlocks[fw.Site.Block()] = true
+				} else if h := c.W.hostCallsIn(fi.SSA, fw.Site); len(h) > 0 {
+					for _, hc := range h {
+						writeBlocks[hc.Block()] = true
+					}
+				}
+				s2 = append(s2, c.W.pos(fw.Site.Pos()))
+			}
+			if len(writeBlocks) > 0 {
+				seen, _ := reachAvoiding(fi.SSA, writeBlocks, nil)
+				for _, ex := range exitsOf(fi.SSA) {
+					if ex.Ret != nil && ex.Kind == exitSuccess && seen[ex.Ret.Block()] {
+						v2 = fmt.Sprintf("%s: %s can succeed without writing its artifact: what is at the output path after the run then depends on what an earlier run left there", c.W.pos(retPos(ex)), fnk)
+					}
+				}
+			}
+			for _, cl := range callsIn(fi.SSA, true, func(n string) bool {
+				return n == "os.ReadFile" || n == "os.Open" || n == "os.Stat" || n == "os.Lstat" || n == "io/ioutil.ReadFile"
+			}) {
+				s2 = append(s2, c.W.pos(cl.Pos()))
+				v2 = fmt.Sprintf("%s: %s looks at the file system (%s) before writing: the artifact becomes a function of what is already there, not of project and configuration alone", c.W.pos(cl.Pos()), fnk, calleeName(cl))
+			}
+			if len(s2) == 0 {
+				s2 = []string{c.W.pos(fi.Decl.Pos())}
+			}
+			r.add("C13.f", "mustcall", fnk+":written-on-every-success", "every successful run writes the artifact, without first looking at what is at the output path", []string{fnk}, s2, v2)
+		}
 	}
 
 	// ---- C13.a (cont.) every in-place sort is a reviewed one
